@@ -496,7 +496,14 @@ pub fn c18_blackbox(run: &mut Run) {
                     if legal_moves(&h.end).is_empty() {
                         break;
                     }
-                    let g = s.go(&slice_args(h.end.stm, 6 + rng.below(7) as u32, &mut rng), WATCHDOG);
+                    let mut g = s.go(&slice_args(h.end.stm, 6 + rng.below(7) as u32, &mut rng), WATCHDOG);
+                    if g.bestmove.is_some() {
+                        // the detached search thread may print a line just after bestmove: wait
+                        // until it is gone, so that nothing of this go lands in the next one
+                        // (without this the first version raised a false alarm in `vp check`:
+                        // a depth-1 line of the previous self-play move inside the long search)
+                        s.settle(&mut g, WATCHDOG);
+                    }
                     match g.bestmove.as_ref().and_then(|(t, _)| parse_mv(t)) {
                         Some(m) if legal_moves(&h.end).contains(&m) => {
                             h.moves.push(m);
